@@ -15,6 +15,15 @@ import heapcommon as hc
 from c03 import HeapCheck, GenX, run_history_x, oracle_snap, X_OPS
 
 
+def merged_id(sec):
+    """The id of the Section this one is merged with (public query), None if there is none."""
+    try:
+        other = sec.get_merged_equivalent()
+    except Exception:
+        return None
+    return None if other is None else other.id
+
+
 def deep_snapshot(doc, extra):
     """Every attribute of every object reachable from doc and from the extra roots."""
     def prop(p):
@@ -28,7 +37,7 @@ def deep_snapshot(doc, extra):
     def sec(s):
         return {"name": s.name, "id": s.id, "type": s.type, "definition": s.definition,
                 "reference": s.reference, "repository": s.repository, "link": s.link,
-                "include": s.include, "sec_cardinality": repr(s.sec_cardinality),
+                "include": s.include, "merged": merged_id(s), "sec_cardinality": repr(s.sec_cardinality),
                 "prop_cardinality": repr(s.prop_cardinality),
                 "parent": None if s.parent is None else s.parent.id,
                 "props": [prop(p) for p in s.properties], "secs": [sec(c) for c in s.sections]}
@@ -107,7 +116,109 @@ PROVOKE = ["values_unconvertible", "dtype_unconvertible", "append_unconvertible"
            "rename_clash", "reparent_clash", "append_self", "insert_clash", "extend_dup",
            "relink_unresolvable", "extend_later_refused", "include_unresolvable", "link_self_or_relative",
            "reorder_bad_index", "insert_bad_index", "setitem_bad_key", "merge_refused", "remove_foreign",
-           "values_out_of_range", "dtype_matrix", "values_matrix", "ctor_matrix", "link_merge_conflict"]
+           "values_out_of_range", "dtype_matrix", "values_matrix", "ctor_matrix", "link_merge_conflict",
+           "merge_clash_matrix"]
+
+
+def merge_clash(r, odml, doc, a, b, roots, stage, box):
+    """A merge (strict or not), a link assignment (absolute / relative path) or finalize() that has to
+    be refused because one pair of children cannot be merged. Dimensions: the kind of the clash (a
+    sub-Section of the same name and another type; a Property whose values do not convert; with
+    strict a Property with another unit / dtype / definition), where it sits (directly below, or
+    inside a sub-Section that merges fine, in front of or behind children that merge fine), whether
+    the clashing object at the destination is EMPTY (a placeholder: len() == 0, falsy) or filled,
+    whether the source's is, whether destination / source carry a definition and reference of their
+    own, and whether they live in the document or are detached. box["before"]: the snapshot taken
+    just before the call that should be refused."""
+    n = r.randrange(10 ** 6)
+    via = r.choice(["merge_strict", "merge_loose", "merge_loose", "link_abs", "link_rel", "finalize"])
+    in_doc = via not in ("merge_strict", "merge_loose")
+    dst = odml.Section("dst%d" % n, "t", parent=r.choice([doc, b] if in_doc else [doc, b, None, None]),
+                       definition=r.choice([None, None, "own definition"]),
+                       reference=r.choice([None, None, "own reference"]))
+    src = odml.Section("src%d" % n, "t", parent=r.choice([doc, a] if in_doc else [doc, a, None, None]),
+                       definition=r.choice([None, "source definition"]),
+                       reference=r.choice([None, "source reference"]))
+    for root in (dst, src):
+        if root.parent is None:
+            roots.append(root)
+
+    def fill(sec, how):
+        if how in ("prop", "both"):
+            odml.Property("note", values=r.choice([["x"], [1], None]), parent=sec)
+        if how in ("sec", "both"):
+            odml.Section("inner", "t", parent=sec)
+
+    def fine(ps, pd, i):
+        """children that merge without any trouble"""
+        c = r.randrange(5)
+        if c == 0:
+            fill(odml.Section("new%d" % i, r.choice(["t", "u"]), parent=ps), r.choice(["none", "prop", "sec"]))
+        elif c == 1:
+            odml.Property("newp%d" % i, values=r.choice([[1], ["x"], None]), parent=ps)
+        elif c == 2:
+            fill(odml.Section("same%d" % i, "t", parent=ps), r.choice(["none", "prop"]))
+            fill(odml.Section("same%d" % i, "t", parent=pd), r.choice(["none", "none", "sec"]))
+        elif c == 3:
+            odml.Property("samep%d" % i, values=[1, 2], parent=ps)
+            odml.Property("samep%d" % i, values=r.choice([[3], None]), parent=pd)
+        else:
+            odml.Section("only_dst%d" % i, "u", parent=pd)
+
+    # where the clash sits
+    ps, pd = src, dst
+    for i in range(r.randrange(0, 3)):
+        fine(ps, pd, i)
+    if r.random() < 0.35:
+        ps = odml.Section("deep", "t", parent=src)
+        pd = odml.Section("deep", "t", parent=dst)
+        for i in range(r.randrange(0, 2)):
+            fine(ps, pd, 10 + i)
+    strict = via == "merge_strict"
+    clash = r.choice(["sec_type", "sec_type", "sec_type", "prop_value", "prop_value"] +
+                     (["prop_unit", "prop_dtype", "prop_definition"] if strict else []))
+    if clash == "sec_type":
+        t1, t2 = r.choice([("t", "u"), ("hardware/channel", "todo"), ("u", "t")])
+        fill(odml.Section("clash", t1, parent=ps), r.choice(["none", "prop", "sec", "both"]))
+        fill(odml.Section("clash", t2, parent=pd), r.choice(["none", "none", "none", "prop", "sec", "both"]))
+    elif clash == "prop_value":
+        odml.Property("clash", values=r.choice([["not a number"], ["2020-01-02x"], ["1.5x", "2"]]), parent=ps)
+        odml.Property("clash", values=r.choice([[1, 2], [1.5], [True]]), parent=pd,
+                      definition=r.choice([None, "d"]))
+    elif clash == "prop_unit":
+        odml.Property("clash", values=[3], unit="kV", parent=ps)
+        odml.Property("clash", values=r.choice([[1], None]), dtype="int", unit="mV", parent=pd)
+    elif clash == "prop_dtype":
+        odml.Property("clash", values=[3.5], dtype="float", parent=ps)
+        odml.Property("clash", values=r.choice([[1], None]), dtype="int", parent=pd)
+    else:
+        odml.Property("clash", values=[3], definition="another", parent=ps)
+        odml.Property("clash", values=r.choice([[1], None]), dtype="int", definition="one", parent=pd)
+    for i in range(r.randrange(0, 3)):
+        fine(ps, pd, 20 + i)
+    if r.random() < 0.3:
+        # the order of the children: the clashing one first
+        for lst in (ps.sections, ps.properties):
+            for ch in list(lst):
+                if ch.name == "clash":
+                    ch.reorder(0)
+    if via == "finalize":
+        # a link that has not been resolved yet (as after loading): assigned while the Section is
+        # detached, where the setter only stores it
+        par = dst.parent
+        par.remove(dst)
+        dst.link = src.get_path()
+        par.append(dst)
+    box["before"] = deep_snapshot(doc, roots)
+    stage[0] = "clash:%s:%s" % (via, clash)
+    if via in ("merge_strict", "merge_loose"):
+        dst.merge(src, strict=strict)
+    elif via == "link_abs":
+        dst.link = src.get_path()
+    elif via == "link_rel":
+        dst.link = dst.get_relative_path(src)
+    else:
+        doc.finalize()
 
 
 class C06(HeapCheck):
@@ -134,7 +245,9 @@ class C06(HeapCheck):
             "type, cycle, out-of-range index, duplicate inside an extend argument, invalid constructor "
             "arguments with parent=; since seeded round 3 also deep-equal copies / twins, odd names and "
             "positions, see C03), oracle-only histories with clone / merge / link / clean (refused primitive "
-            "operations compared), plus a provoke stream: 38 kinds of refused value / dtype / "
+            "operations compared, incl. what .document answers before and after), plus a provoke stream: "
+            "39 kinds (since round 4 a matrix of refused merges / link assignments / finalize: kind of clash x "
+            "empty or filled clashing objects x position x strictness) of refused value / dtype / "
             "cardinality / id / date / link / constructor calls on a populated document, among them three "
             "matrix kinds (any Property pre-state x any dtype / any hostile value incl. values whose "
             "conversion raises any exception class), every third case followed by 1-3 further provoked "
@@ -146,7 +259,8 @@ class C06(HeapCheck):
         cases = self.histories(tier, rng)
         nx = 400 if tier == "quick" else 3000
         for _ in range(nx):
-            cases.append({"xops": GenX(random.Random(rng.randrange(1 << 60))).history()})
+            g = GenX(random.Random(rng.randrange(1 << 60)))
+            cases.append({"xops": g.history(), "q": hc.q_plan(g.rng)})
         n = 12 if tier == "quick" else 200
         # the matrix kinds span (pre-state x operation x value): many more, cheap cases
         nm = 300 if tier == "quick" else 4000
@@ -163,7 +277,7 @@ class C06(HeapCheck):
             # histories with clone (+ re-attach, children of the original moved into the deep-equal
             # copy and back), merge, link, clean: executed as in C03 (which holds the model tie for
             # them); here the oracle compares the snapshots around every refused primitive operation
-            trace, done, skipped = run_history_x(case["xops"])
+            trace, done, skipped = run_history_x(case["xops"], case.get("q"))
             return {"x": True, "trace": trace, "done": done, "skipped": skipped}
         if "provoke" not in case:
             return HeapCheck.impl(self, case)
@@ -190,7 +304,9 @@ class C06(HeapCheck):
                 pass
         def once(k):
             stage = ["call"]
-            before = deep_snapshot(doc, [free])
+            roots = [free]
+            box = {}
+            before = deep_snapshot(doc, roots)
             bad = r.choice(["abc", "1.5x", object, [1, "a"], {"a": 1}])
             try:
                 if k == "values_unconvertible":
@@ -371,6 +487,8 @@ class C06(HeapCheck):
                                   lambda: q.extend(h, strict=strict),
                                   lambda: q.insert(r.randrange(-1, 3), h, strict=strict),
                                   lambda: q.__setitem__(r.randrange(-1, 2), h)])()
+                elif k == "merge_clash_matrix":
+                    merge_clash(r, odml, doc, a, b, roots, stage, box)
                 elif k == "ctor_matrix":
                     dt = r.choice(DTYPES + [None, None])
                     h = hostile_value(r)
@@ -382,7 +500,8 @@ class C06(HeapCheck):
                 raised = None
             except Exception as exc:
                 raised = fw.exc_name(exc)
-            after = deep_snapshot(doc, [free])
+            before = box.get("before", before)
+            after = deep_snapshot(doc, roots)
             return {"provoke": k, "raised": raised, "same": before == after, "stage": stage[0],
                     "diff": [] if before == after else _diff(before, after)}
 
@@ -435,6 +554,7 @@ class C06(HeapCheck):
                         % (obs["provoke"], obs["raised"], obs["diff"][:3], note)]
             return []
         prev = []
+        prev_q = {}
         for k, step in enumerate(obs["trace"]):
             # (refused merges belong to C13, refused link assignments to C12 and the provoke stream)
             if step["out"] != "ok" and obs["done"][k]["op"] not in ("merge", "set_link", "clean"):
@@ -444,9 +564,18 @@ class C06(HeapCheck):
                     return ["op %d %s raised %s but changed objects %s (and %d new objects): before %s after %s"
                             % (k, obs["done"][k], step["out"], diff, extra,
                                [prev[i] for i in diff[:3]], [step["snap"][i] for i in diff[:3]])]
+                # what the objects answer when asked for their document is part of "as they were"
+                # (compared where the query plan asked the same object before and after the call)
+                before = dict((i, a) for i, a in prev_q.get("doc", []))
+                moved = [(i, before[i], a) for i, a in (step.get("q") or {}).get("doc", [])
+                         if i in before and before[i] != a]
+                if moved:
+                    return ["op %d %s raised %s but .document of object %d changed from %s to %s"
+                            % ((k, obs["done"][k], step["out"]) + moved[0])]
             if hc.wf_failures(oracle_snap(step["snap"])):
                 break            # beyond a broken tree (C03's business) nothing is expected
             prev = step["snap"]
+            prev_q = step.get("q") or {}
         return []
 
 
